@@ -772,6 +772,10 @@ def _loop_as_comprehension(init, loop):
     if islist and isinstance(s, ast.Expr) and isinstance(s.value, ast.Call) and isinstance(s.value.func, ast.Attribute) and s.value.func.attr == 'append' \
             and isinstance(s.value.func.value, ast.Name) and s.value.func.value.id == x and len(s.value.args) == 1 and not uses_x(s.value.args[0]):
         comp = ast.ListComp(elt=s.value.args[0], generators=gens)
+    elif islist and isinstance(s, ast.Expr) and isinstance(s.value, ast.Call) and isinstance(s.value.func, ast.Attribute) and s.value.func.attr == 'extend' \
+            and isinstance(s.value.func.value, ast.Name) and s.value.func.value.id == x and len(s.value.args) == 1 and not uses_x(s.value.args[0]):
+        # X = []; for ..: X.extend(e)   ==   X = sum([e for ..], [])
+        comp = ast.Call(func=ast.Name(id='sum', ctx=ast.Load()), args=[ast.ListComp(elt=s.value.args[0], generators=gens), ast.List(elts=[], ctx=ast.Load())], keywords=[])
     elif isdict and isinstance(s, ast.Assign) and len(s.targets) == 1 and isinstance(s.targets[0], ast.Subscript) and isinstance(s.targets[0].value, ast.Name) \
             and s.targets[0].value.id == x and not uses_x(s.targets[0].slice) and not uses_x(s.value):
         comp = ast.DictComp(key=s.targets[0].slice, value=s.value, generators=gens)
@@ -806,7 +810,8 @@ def loops_to_comprehensions(fn, r, stats, key):
                 if c is not None:
                     loc2 = loc | {n.id for n in ast.walk(c) if isinstance(n, ast.Name) and isinstance(n.ctx, ast.Store)}
                     d = stmt_blind(c, loc2)[0]
-                    if cur[d] < have[d] or stmt_blind(ast.Expr(value=c.value), loc2)[0] in r.get('comps', ()):
+                    inner = c.value.args[0] if isinstance(c.value, ast.Call) else c.value
+                    if cur[d] < have[d] or stmt_blind(ast.Expr(value=inner), loc2)[0] in r.get('comps', ()):
                         stmts[i:i + 2] = [c]
                         cur[d] += 1
                         done[0] += 1
@@ -1337,6 +1342,14 @@ def _own_nodes(fn):
                 todo.append(c)
 
 
+def _canon_call(g):
+    from .au import canon
+    try:
+        return canon(g)
+    except Exception:
+        return g
+
+
 def make_reference(trees):
     out = {}
     for mod, tree in trees.items():
@@ -1347,7 +1360,7 @@ def make_reference(trees):
             f2 = copy.deepcopy(fn)
             webs.split(f2, fn_scope_locals(f2))
             h, order = blind(f2)
-            comps = sorted({stmt_blind(ast.Expr(value=c), set(local_names(fn)))[0] for c in [ast.ListComp(elt=g.elt, generators=g.generators) if isinstance(g, ast.GeneratorExp) else g for g in ast.walk(fn)] if isinstance(c, (ast.ListComp, ast.DictComp, ast.SetComp))})
+            comps = sorted({stmt_blind(ast.Expr(value=c), set(local_names(fn)))[0] for c in [ast.ListComp(elt=g.elt, generators=g.generators) if isinstance(g, ast.GeneratorExp) else _canon_call(g) if isinstance(g, ast.Call) else g for g in ast.walk(fn)] if isinstance(c, (ast.ListComp, ast.DictComp, ast.SetComp))})
             out[key] = dict(blind=h, names=order, stmts=stm, plain=blind(fn)[0], comps=comps, exits=exit_digests(fn))
     mods = {mod: sorted({t.id for n in tree.body if isinstance(n, ast.Assign) for t in n.targets if isinstance(t, ast.Name)}) for mod, tree in trees.items()}
     return dict(functions=out, module_names=mods)
